@@ -19,23 +19,28 @@ def interpPyx (a b t : Q) : Q :=
   else if t > b then b
   else t
 
+/-- difference to a neighbouring spike, `d` when the spike or the neighbour is missing -/
+def optDiff (x y : Option Q) (d : Q) : Q :=
+  match x, y with
+  | some c, some n => n - c
+  | _, _ => d
+
+/-- the branch condition `i<0 or j<0 or spikes1[i] <= spikes2[j]` -/
+def tauFirst (c1 c2 : Option Q) : Bool :=
+  match c1, c2 with
+  | some a, some b => decide (a ≤ b)
+  | _, _ => true
+
 /-- `get_tau` with the neighbours passed explicitly: `p_n c_n n_n` = previous, current, next spike
     of train n around index i (resp. j); `none` for a missing one (index -1 ⇒ `c = none`).
     `maxTau` is the `max_tau` *argument* of `get_tau` (the callers pass `true_max`). -/
 def getTau (p1 c1 n1 p2 c2 n2 : Option Q) (maxTau mrts : Q) : Q :=
-  let dF1 : Q := match c1, n1 with | some c, some n => n - c | _, _ => maxTau
-  let dF2 : Q := match c2, n2 with | some c, some n => n - c | _, _ => maxTau
-  let dP1 : Q := match p1, c1 with | some p, some c => c - p | _, _ => maxTau
-  let dP2 : Q := match p2, c2 with | some p, some c => c - p | _, _ => maxTau
-  let mF1 : Q := dF1 / 2
-  let mF2 : Q := dF2 / 2
-  let mP1 : Q := dP1 / 2
-  let mP2 : Q := dP2 / 2
+  let mF1 : Q := optDiff c1 n1 maxTau / 2
+  let mF2 : Q := optDiff c2 n2 maxTau / 2
+  let mP1 : Q := optDiff p1 c1 maxTau / 2
+  let mP2 : Q := optDiff p2 c2 maxTau / 2
   let m : Q := mrts / 4
-  let first : Bool := match c1, c2 with
-    | some a, some b => decide (a ≤ b)
-    | _, _ => true
-  if first then
+  if tauFirst c1 c2 then
     min (min (interp mP1 mF1 m) (interp mF2 mP2 m)) (maxTau / 2)
   else
     min (min (interp mF1 mP1 m) (interp mP2 mF2 m)) (maxTau / 2)
